@@ -84,6 +84,8 @@ contract(
     loops={0: WALK},
 )
 
+define("norm_pos", "lambda l, i: ite(i < 0, i + len(l), i)")
+define("valid_pos", "lambda l, i: 0 <= norm_pos(l, i) and norm_pos(l, i) < len(l) and l[norm_pos(l, i)] is not None")
 define("all_exprs", "lambda l: forall(range(0, len(l)), lambda i: isinstance(l[i], Expr))")
 define("slot_list", "lambda s, k: has(s.args, k) and is_list(s.args[k])")
 
@@ -91,7 +93,7 @@ contract(
     CORE, "Expression.set", props=["C08"],
     types={"arg_key": "str", "index": "int|none", "overwrite": "bool", "node": "Expression|none", "v": "Expr"},
     requires=[
-        "hc()", "wf_slot(self, arg_key)", "index is None or index >= 0",
+        "hc()", "wf_slot(self, arg_key)", "index is None or index >= 0 or value is None",
         # positional edits address a list-valued slot holding distinct expression nodes
         "implies(index is not None and has(self.args, arg_key), is_list(self.args[arg_key]) and all_exprs(self.args[arg_key]) and distinct_exprs(self.args[arg_key]))",
         # the inserted value is not already stored in that slot, and a list value is duplicate free and not the slot's own list
@@ -110,13 +112,13 @@ contract(
         " and value is not None and not is_list(value) and overwrite,"
         " self.args[arg_key] is old(self.args[arg_key]) and len(self.args[arg_key]) == old(len(self.args[arg_key])) and self.args[arg_key][index] is value"
         " and forall(range(0, len(self.args[arg_key])), lambda i: implies(i != index, self.args[arg_key][i] is old(self.args[arg_key][i]))))",
-        # positional removal: the element is gone and the tail moved down by one
-        "implies(index is not None and old(slot_list(self, arg_key) and index < len(self.args[arg_key]) and self.args[arg_key][index] is not None) and value is None,"
+        # positional removal (the position may be counted from the end): the element is gone and the tail moved down by one
+        "implies(index is not None and value is None and old(slot_list(self, arg_key) and valid_pos(self.args[arg_key], index)),"
         " self.args[arg_key] is old(self.args[arg_key]) and len(self.args[arg_key]) == old(len(self.args[arg_key])) - 1"
-        " and forall(range(0, index), lambda i: self.args[arg_key][i] is old(self.args[arg_key][i]))"
-        " and forall(range(index, len(self.args[arg_key])), lambda i: self.args[arg_key][i] is old(self.args[arg_key][i + 1])))",
+        " and forall(range(0, old(norm_pos(self.args[arg_key], index))), lambda i: self.args[arg_key][i] is old(self.args[arg_key][i]))"
+        " and forall(range(old(norm_pos(self.args[arg_key], index)), len(self.args[arg_key])), lambda i: self.args[arg_key][i] is old(self.args[arg_key][i + 1])))",
         # an out-of-range position is a no-op on the arguments
-        "implies(index is not None and not old(slot_list(self, arg_key) and index < len(self.args[arg_key]) and self.args[arg_key][index] is not None),"
+        "implies(index is not None and not old(slot_list(self, arg_key) and valid_pos(self.args[arg_key], index)),"
         " iff(has(self.args, arg_key), old(has(self.args, arg_key))) and self.args[arg_key] is old(self.args[arg_key]))",
     ],
     modifies=LINKS + ["*._hash", "self.args{}", "self.args[arg_key][]"],
